@@ -8,6 +8,7 @@ mod ser;
 mod lay;
 mod kan;
 mod kall;
+mod c02;
 mod c04;
 mod c05;
 mod lall;
@@ -35,6 +36,7 @@ fn main() {
                 "C04" => c04::gen(tier, seed),
                 "LALL" => lall::gen(tier, seed),
                 "KALL" => kall::gen(tier, seed),
+                "C02" => c02::gen(tier, seed),
                 "C05" => c05::gen(tier, seed),
                 _ => {
                     eprintln!("unknown property {prop}");
